@@ -700,7 +700,13 @@ def run_rank(case, drv):
                 and rt in ("bic",)
             if float_tie:
                 tags.append("float-near-tie")
-            for name, d, v, rk in rows_code:
+            # a BIC difference (log() inside) that equals the cut-off up to float rounding: on which side of the cut-off it falls is a
+            # rounding artefact (code 3.750000000000007 vs exact 3.75); the case is then not compared
+            cut_tie = rt == "bic" and cut is not None and not isinstance(cut, list) and any(
+                r[1] is not None and abs(r[1] - float(cut)) <= 1e-9 * max(1.0, abs(float(cut))) for r in rows_code)
+            if cut_tie:
+                tags.append("float-near-cutoff")
+            for name, d, v, rk in ([] if cut_tie else rows_code):
                 mrow = dm.get(name)
                 if mrow is None:
                     k.append(f"row {name} missing in model")
@@ -712,11 +718,13 @@ def run_rank(case, drv):
                 if not close(d, mrow[1]):
                     k.append(f"d{col} of {name}: model {mrow[1]} code {d}")
             # row order: rank sequence identical; names identical up to order within a rank group / the NaN group
-            if not float_tie and [r[3] for r in rows_m] != [None if r[3] is None else int(r[3]) for r in rows_code]:
+            if not float_tie and not cut_tie and [r[3] for r in rows_m] != [None if r[3] is None else int(r[3]) for r in rows_code]:
                 k.append(f"row order: model ranks {[r[3] for r in rows_m]} code {[r[3] for r in rows_code]}")
             best_m = None if ans[1] == "none" else infos[int(ans[1])]["name"]
             code_rank = {r[0]: r[3] for r in rows_code}
-            if all(r[3] is None for r in rows_code):
+            if cut_tie:
+                pass
+            elif all(r[3] is None for r in rows_code):
                 if best_m is not None:
                     k.append(f"best: model {best_m}, code has no ranked row")
             else:
